@@ -63,10 +63,14 @@ TEMPLATES = {
     "dsl_class_required": ("mn: int", [], 'Object.inline("M", properties={"a": Property(Integer(minimum=mn), required=True), "b_": Property(Integer(), source="b")}, required=["b"])', DV, DPRE1),
     "dsl_element_required": ("mn: int", [], 'Element(properties={"a": Property(Integer(minimum=mn), required=True), "b_": Property(Element(), source="b")}, required=["ab"], additionalProperties=Integer(maximum=mn))', DV, DPRE1),
     "dsl_inherited": ("mn: int", [], '_child(mn)', DV, DPRE1),
+    "declared_matches_pattern": ("mn: int", [], 'parse_s({"properties": {"a": {"minimum": mn}, "ab": {"type": "integer", "default": 1}}, "patternProperties": {"^a": {"maximum": mn}, "b$": {"multipleOf": 2}}, "required": ["ab"]})', DV, DPRE1),
+    "declared_matches_pattern_typed": ("mn: int", [], 'parse_s({"type": "object", "title": "PM", "properties": {"a": {"minimum": mn}, "a b": {"type": "integer"}}, "patternProperties": {"^a": {"maximum": mn}}})', DV, DPRE1),
     "pattern_deps": ("mn: int", [], 'parse_s({"patternProperties": {"^a": {"maximum": mn}}, "dependencies": {"a": ["b"], "b": {"minProperties": 2}}, "propertyNames": {"maxLength": 2}})', DV, DPRE1),
     "tuple_items": ("m: int", [], 'parse_s({"type": "array", "items": [{"type": "integer"}, {"minimum": m}], "additionalItems": {"type": "boolean"}, "uniqueItems": True})', LV, "len({0}) <= 3"),
     "items_of_objects": ("m: int", [], 'Array(Object.inline("It", properties={"a": Property(Integer(maximum=m), required=True)}), minItems=1)', "List[Dict[str, int]]", "len({0}) <= 2 and all(len(d) <= 1 and all(k in ('a', 'b') for k in d) for d in {0})"),
     "composition": ("m: int", [], 'parse_s({"anyOf": [{"type": "object", "title": "A", "required": ["a"], "properties": {"a": {"minimum": m}}}, {"type": "integer"}], "not": {"const": 3}})', "Union[int, Dict[str, int]]", "(not isinstance({0}, dict)) or (len({0}) <= 1 and all(k in ('a', 'b') for k in {0}))"),
+    "shared_instances": ("m: int", [], '(lambda e, c: Element(properties={"a": Property(e, required=True), "b": Property(e), "ab": Property(c)}, additionalProperties=c, items=[e, e]))(Integer(minimum=m), Object.inline("Sh", properties={"x": Property(Integer(maximum=m))}))', "Dict[str, int]", DPRE1),
+    "format_and_literals": ("m: int", [], 'Element(format="uuid", enum=[m, "x", [m], {"b": m}, {}], properties={"a": Property(String(format="uuid"))}, dependencies={"a": ["b"], "b": Element(minProperties=1)})', "Dict[str, int]", DPRE1),
     "defaults": ("d: int, m: int", [], 'parse_s({"type": "object", "title": "D", "properties": {"a": {"type": "integer", "maximum": m, "default": d}, "b": {"type": "array", "default": [1]}}})', DV, DPRE1),
 }
 
